@@ -148,6 +148,12 @@ def run(ctx):
                 add(variant, en, h)
     for i in range(40 if q else 1500):
         add(rng.choice(lc.VARIANTS), rng.random() < 0.5, random_history(rng, rng.choice([8, 15, 25, 40])))
+    # the same named scenarios with a usable default rule configured (policy_default_rule names a registered
+    # helper policy): names no layer defines are decided by it - by the long-lived enforcer as by a new one
+    groups_dr = {}
+    for hi, h in enumerate(named):
+        for vi, variant in enumerate(('plain', 'renamed', 'split', 'same')):
+            groups_dr.setdefault((variant, (hi + vi) % 2 == 0), []).append(h)
     longest = 0
     for (variant, en), hs in sorted(groups.items()):
         traces = []
@@ -163,7 +169,17 @@ def run(ctx):
                            'trace': tr[:step], 'history': hs[idx]})
         if len(ctx.samples) < 6 and traces:
             ctx.sample({'variant': variant, 'enforce_new_defaults': en, 'trace': traces[0][:8]})
+    for (variant, en), hs in sorted(groups_dr.items()):
+        traces = [lc.run_history(rng, variant, en, h, via=['enforce', 'rules', 'check'][i % 3], late=any(op[0] == 'register' for op in h), dr=True)
+                  for i, h in enumerate(hs)]
+        n_hist += len(traces)
+        for idx, why, step in lc.judge_traces(ctx, variant, en, traces):
+            tr = traces[idx]
+            ctx.violation('default-rule:' + key_of(why, tr, step), 'history of file changes and loads (a default rule configured) rejected by the loader specification: ' + why,
+                          {'variant': variant, 'enforce_new_defaults': en, 'rejected_at_event': step, 'why': why, 'policy_default_rule': 'hlp (registered: role:dflt)',
+                           'trace': tr[:step], 'history': hs[idx]})
+    ctx.cover['histories_with_default_rule'] = sum(len(v) for v in groups_dr.values())
     ctx.cover.update({'histories': n_hist, 'exhaustive_fs_depth': depth, 'longest_trace_events': longest,
                       'fs_operation_alphabet': len(lc.FS_OPS)})
     ctx.assumptions += ['every change advances modification times (the statement\'s premise): the harness sets file and directory mtimes with os.utime to the specification clock',
-                        'policy directories themselves are never removed; policy_default_rule stays at its (undefined) default']
+                        'policy directories themselves are never removed; policy_default_rule is either left at its (undefined) default or names a registered helper policy']
